@@ -158,7 +158,7 @@ type bfsNode struct {
 
 func histBFS(c *core.Ctx, sb *sandbox, res *core.ShardResult, wl *core.WLog) {
 	shape := histShapes[c.Shard%len(histShapes)]
-	maxTrans := c.Q(9000, 400000)
+	maxTrans := c.Q(45000, 2000000)
 	values := []string{"v1", "v2"}
 	edits := editOps(shape, values)
 	runs := runOps(shape, true)
@@ -176,6 +176,16 @@ func histBFS(c *core.Ctx, sb *sandbox, res *core.ShardResult, wl *core.WLog) {
 		return ops
 	}
 	add := func(n hstate, parent int, op hop) {
+		// model components that the property being checked never looks at are dropped from
+		// the state, so that the search merges more histories
+		switch c.Prop {
+		case "C01":
+			n.LastFail, n.Forced = map[string]string{}, map[string]string{}
+		case "C02":
+			n.Forced = map[string]string{}
+		case "C14":
+			n.LastFail = map[string]string{}
+		}
 		k := n.key()
 		if _, ok := seen[k]; !ok {
 			seen[k] = len(nodes)
@@ -428,7 +438,9 @@ func histRun(c *core.Ctx) bool {
 	wg.Add(2)
 	go func() {
 		defer wg.Done()
-		bfs, d1 = c.RunWorkers(core.WorkerSpec{Sub: "bfs", NShards: len(histShapes), Parallel: len(histShapes)})
+		// the search is sequential cache logic: it runs on the plain build (3-5x more transitions per
+		// second); the random histories and the binary sample stay on the race build
+		bfs, d1 = c.RunWorkers(core.WorkerSpec{Sub: "bfs", Binary: c.VcheckFast(), NShards: len(histShapes), Parallel: len(histShapes)})
 	}()
 	go func() {
 		defer wg.Done()
